@@ -15,6 +15,7 @@ let model = function
       let bytes_of s = List.map (fun c -> byte_of_int (Char.code c)) (List.of_seq (String.to_seq s)) in
       "S " ^ hex_of_str (join (str_of_hex i) (List.map (fun d -> bytes_of (Printf.sprintf "%Lx" (Int64.of_int d))) ints))
       ^ " " ^ hex_of_str (join (str_of_hex i) (List.map (fun d -> bytes_of (string_of_int d)) ints))
+  | ["joinc"; i; t] -> "S " ^ hex_of_str (join (str_of_hex i) (List.map (fun b -> [b]) (str_of_hex t)))
   | ["joind"; l] -> "S " ^ hex_of_str (join [byte_of_int 32] (strs_of_wire l))
   | ["joinw"; i; l] -> "S " ^ hex_of_str (join (str_of_hex i) (strs_of_wire l))
   | ["starts"; f; p] -> if starts_with (str_of_hex f) (str_of_hex p) then "B 1" else "B 0"
@@ -45,6 +46,7 @@ let oracle case obs =
       let bytes_of s = List.map (fun c -> byte_of_int (Char.code c)) (List.of_seq (String.to_seq s)) in
       str_of_hex a = spec_join (str_of_hex i) (List.map (fun d -> bytes_of (Printf.sprintf "%Lx" (Int64.of_int d))) ints)
       && str_of_hex b = spec_join (str_of_hex i) (List.map (fun d -> bytes_of (string_of_int d)) ints)
+  | ["joinc"; i; t], ["S"; x] -> str_of_hex x = spec_join (str_of_hex i) (List.map (fun b -> [b]) (str_of_hex t))
   | ["joind"; l], ["S"; x] -> str_of_hex x = spec_join [byte_of_int 32] (strs_of_wire l)
   | ["joinw"; i; l], ["S"; x] -> str_of_hex x = spec_join (str_of_hex i) (strs_of_wire l)
   | ["starts"; f; p], ["B"; b] -> (b = "1") = prefixb (str_of_hex p) (str_of_hex f)
